@@ -478,16 +478,18 @@ func c53Decoders() []*c53Decoder {
 			run:   func(d []byte, _ *c53Lim) error { return config.NewConfig().Unmarshal(d) },
 			seeds: []string{"[core]\n\tbare = false\n\tworktree = /x\n[remote \"origin\"]\n\turl = https://x/y\n\tfetch = +refs/heads/*:refs/remotes/origin/*\n[branch \"main\"]\n\tremote = origin\n\tmerge = refs/heads/main\n[submodule \"s\"]\n\tpath = s\n\turl = u\n[url \"a\"]\n\tinsteadOf = b\n[extensions]\n\tobjectformat = sha256\n"},
 			files: []string{"config"}},
-		{name: "gitignore/pattern", alpha: []string{"a", "*", "?", "[", "]", "!", "/", "\\", "-", ":"}, tpls: []c53Tpl{raw, {pre: "[[:"}, {pre: "a/**/"}},
+		{name: "gitignore/pattern", alpha: []string{"a", "*", "?", "[", "]", "!", "/", "\\", "-", ":"}, tpls: []c53Tpl{raw, {pre: "[[:"}, {pre: "a/**/"}, {pre: strings.Repeat("*a", 20)}},
 			run: func(d []byte, _ *c53Lim) error {
 				p := gitignore.ParsePattern(string(d), nil)
-				for _, path := range []string{"a", "a/b/c", "aa/", "[", "x/y/a/"} {
+				for _, path := range []string{"a", "a/b/c", "aa/", "[", "x/y/a/", c53LongA, "x/" + c53LongA} {
 					isDir := strings.HasSuffix(path, "/")
 					_ = p.Match(strings.Split(strings.Trim(path, "/"), "/"), isDir)
 				}
 				_ = gitignore.ParsePattern(string(d), []string{"a"}).Match([]string{"a", "b"}, false)
 				return nil
-			}, seeds: []string{"foo", "!foo", "*.go", "**/bar", "foo/**/bar", "build/", `foo\*`, "[abc]", "[!abc]", "[a-z]", "[[:alpha:]]", "[[:unknown:]]", "[", "[unterminated", `\`, "a/b/c", "/a/*/c/"}},
+			}, seeds: []string{"foo", "!foo", "*.go", "**/bar", "foo/**/bar", "build/", `foo\*`, "[abc]", "[!abc]", "[a-z]", "[[:alpha:]]", "[[:unknown:]]", "[", "[unterminated", `\`, "a/b/c", "/a/*/c/",
+				// many stars around a literal with a tail that cannot match: wildmatch must prune, not backtrack
+				strings.Repeat("*a", 24) + "*b", strings.Repeat("a*", 24) + "b", "**/" + strings.Repeat("*a", 20) + "*b", strings.Repeat("?*", 20) + "b", strings.Repeat("[a]*", 16) + "b"}},
 		{name: "reflog/decode", alpha: []string{"0", "a", " ", "<", ">", "\t", "\n", "+"}, tpls: []c53Tpl{raw, {pre: c53Zero40 + " " + c53H + " "}, {pre: c53Zero40 + " " + c53H + " A <a@b> "}},
 			run: func(d []byte, l *c53Lim) error { _, err := reflog.Decode(l.stream(d)); return err },
 			seeds: []string{c53Zero40 + " " + c53H + " Author Name <author@example.com> 1234567890 +0000\tcommit (initial): Initial commit\n", c53H + " " + c53H2 + " Author <a@b.com> 1234567890 +0000\n",
@@ -639,3 +641,7 @@ func c53Outcome(err error) string {
 }
 
 var _ = bytes.Equal
+
+// c53LongA is a path component made of one literal only, long enough for a
+// backtracking matcher to explode on a many-star pattern.
+var c53LongA = strings.Repeat("a", 72)
